@@ -278,7 +278,16 @@ class MountConcHarness:
                 return None
 
         n = self.cfg["threads"]
-        sts = [Mounted() for _ in range(n)]
+        if self.cfg.get("files"):
+            # plain file stores in ONE directory whose names share a stem (model.pkl / model.json / model.txt)
+            import pathlib
+            d = ctx["dir"] = tempfile.mkdtemp(prefix="c12s_")
+            mk = [lambda p_: stores.PickleFileStore(p_), lambda p_: stores.JsonFileStore(p_), lambda p_: stores.TextFileStore(p_)]
+            ext = [".pkl", ".json", ".txt"]
+            conv = pathlib.Path if self.cfg["files"] == "pathlib" else str
+            sts = [mk[i](conv(os.path.join(d, "model" + ext[i]))) for i in range(n)]
+        else:
+            sts = [Mounted() for _ in range(n)]
         vals = [f"value-{i}" * (i + 1) for i in range(n)]
         res = ctx["res"]
 
@@ -305,6 +314,9 @@ class MountConcHarness:
         for t in ths:
             t.join()
         ctx["vals"] = vals
+        if ctx.get("dir"):
+            ctx["left"] = sorted(f for f in os.listdir(ctx["dir"]) if f.endswith(".STAGING"))
+            shutil.rmtree(ctx["dir"], ignore_errors=True)
         return None
 
     def check(self, x):
@@ -321,7 +333,9 @@ class MountConcHarness:
             if r is None or r[0] == "exc":
                 msgs.append(("C12", f"thread {i}: write/read through its own MountedStore failed while another mounted store was in use: {r}"))
             elif r[1] != v:
-                msgs.append(("C12", f"thread {i}: read through its own MountedStore returned {r[1]!r}, it had written {v!r} (another mounted store was in use concurrently)"))
+                msgs.append(("C12", f"thread {i}: read through its own store returned {r[1]!r}, it had written {v!r} (another store was in use concurrently)"))
+        if x.ctx.get("left"):
+            msgs.append(("C12", f"staging files left after all writes returned: {x.ctx['left']}"))
         return msgs, ("ok", tuple(sorted(x.ctx["res"].items())))
 
 
@@ -330,8 +344,15 @@ def mounted_concurrency(tier):
 
     from .. import e1, e1run
 
+    from uberjob.stores import _file_store as fs
+    from uberjob.stores import _json_file_store as js
+    from uberjob.stores import _pickle_file_store as ps
+    from uberjob.stores import _text_file_store as ts
+
     e1.install_bc([ms.MountedStore.read, ms.MountedStore.write, ms._path_context.__wrapped__], mode="all")
+    e1.install_bc([fs.staged_write_path.__wrapped__, fs.staged_write.__wrapped__, js.JsonFileStore.write, ps.PickleFileStore.write, ts.TextFileStore.write], mode="all")
     cfgs = [{"kind": k, "threads": 2, "mode": m} for k in ("text", "json") for m in ("write-read", "read-read")]
+    cfgs += [{"kind": "files", "files": f, "threads": 2, "mode": "write-read"} for f in ("pathlib", "str")]
     if tier != "quick":
         cfgs += [{"kind": "text", "threads": 3, "mode": "write-read"}]
     budget = {"preempt": 1} if tier == "quick" else {"preempt": 2}
